@@ -15,6 +15,7 @@ import (
 	"encoding/asn1"
 	"encoding/json"
 	"fmt"
+	"io"
 	"math/big"
 	"net"
 	"net/url"
@@ -56,6 +57,9 @@ func getSigners() map[string][2]crypto.Signer {
 		s1, _ := sm2.GenerateKey(rand.Reader)
 		s2, _ := sm2.GenerateKey(rand.Reader)
 		signers["sm2"] = [2]crypto.Signer{s1, s2}
+		o1, _ := sm2.GenerateKey(rand.Reader)
+		o2, _ := sm2.GenerateKey(rand.Reader)
+		signers["sm2opaque"] = [2]crypto.Signer{opaqueSigner{o1}, opaqueSigner{o2}}
 		r1, _ := rsa.GenerateKey(rand.Reader, 2048)
 		r2, _ := rsa.GenerateKey(rand.Reader, 2048)
 		signers["rsa"] = [2]crypto.Signer{r1, r2}
@@ -67,6 +71,14 @@ func getSigners() map[string][2]crypto.Signer {
 		signers["ecdsa384"] = [2]crypto.Signer{f1, f2}
 	})
 	return signers
+}
+
+// an SM2 key of which only Public() and Sign() are visible (no type assertion on the signer can find the key)
+type opaqueSigner struct{ k *sm2.PrivateKey }
+
+func (o opaqueSigner) Public() crypto.PublicKey { return o.k.Public() }
+func (o opaqueSigner) Sign(r io.Reader, digest []byte, opts crypto.SignerOpts) ([]byte, error) {
+	return o.k.Sign(r, digest, opts)
 }
 
 // a holder of a public key, as far as signature checking is concerned
@@ -151,6 +163,10 @@ func certTemplate(class string) *x509.Certificate {
 		t.ExtKeyUsage = []x509.ExtKeyUsage{x509.ExtKeyUsageServerAuth, x509.ExtKeyUsageClientAuth}
 		t.DNSNames = []string{"a.example.com"}
 		t.ExtraExtensions = []pkix.Extension{{Id: asn1.ObjectIdentifier{2, 5, 29, 15}, Critical: true, Value: []byte{0x03, 0x02, 0x05, 0xa0}}}
+	case "extra_unknown_then_known":
+		t.KeyUsage = 0
+		t.ExtraExtensions = []pkix.Extension{{Id: asn1.ObjectIdentifier{1, 2, 3, 4}, Critical: false, Value: []byte{5, 0}},
+			{Id: asn1.ObjectIdentifier{2, 5, 29, 15}, Critical: true, Value: []byte{0x03, 0x02, 0x05, 0xa0}}}
 	case "extra_overrides_eku":
 		t.ExtKeyUsage = []x509.ExtKeyUsage{x509.ExtKeyUsageServerAuth}
 		t.DNSNames = []string{"a.example.com"}
@@ -288,12 +304,17 @@ func runIssue(kind, family, alg, class string, dense bool) (o issueObs) {
 					o.Alg = algName(c.SignatureAlgorithm)
 					want := *t
 					switch class { // an extra extension with the OID of a generated one replaces it
+					case "extra_unknown_then_known":
+						want.KeyUsage = x509.KeyUsageDigitalSignature | x509.KeyUsageKeyEncipherment
 					case "extra_overrides_keyusage":
 						want.KeyUsage = x509.KeyUsageDigitalSignature | x509.KeyUsageKeyEncipherment
 					case "extra_overrides_eku":
 						want.ExtKeyUsage = []x509.ExtKeyUsage{x509.ExtKeyUsageClientAuth}
 					}
 					o.FieldDiff = certDiff(&want, c)
+					if len(c.UnhandledCriticalExtensions) != 0 {
+						o.FieldDiff = append(o.FieldDiff, fmt.Sprint("critical extensions reported as not handled: ", c.UnhandledCriticalExtensions))
+					}
 					if class == "extra_overrides_eku" || class == "extra_overrides_keyusage" {
 						seen := map[string]int{}
 						for _, e := range c.Extensions {
